@@ -165,6 +165,12 @@ class TG:
     def type_meta(self, ctx):
         mode, b = gen_bound(ctx)
         if ctx.kind == 'union' and self.union_unsafe:
+            if ctx.want_fault and ctx.fault is None and ctx.rng.random() < 0.35:
+                # the union handlers of PartialEq / Hash accept `unsafe` and nothing else
+                k = pick(ctx.rng, ['%s', '%s()', '%s( )', '%s(bound(*))', '%s(unsafe, bound(*))', '%s(unsafe, unsafe)',
+                                   '%s(bound = false, unsafe)', '%s = false', '%s(unsafe,)', '%s(unsafe x)', '%s[unsafe]'])
+                ctx.fault = 'union_unsafe_form:' + k + '@type'
+                return k % self.name
             return '%s(unsafe)' % self.name
         return trait_with_params(ctx.sp, self.name, [b])
     def variant_meta(self, ctx, variant):
